@@ -113,3 +113,21 @@ Theorem C15_segment_order_antisym :
   a <> b -> is_before st b a = negb (is_before st a b) ->
   compare_segments st b a = CompOpp (compare_segments st a b).
 Proof. exact compare_segments_antisym. Qed.
+
+(** the lexicographic structure for the bit-exact binary64 model (order laws: NumLawsB) *)
+From Coq Require Import ZArith.
+From GB Require Import NumB NumLawsB.
+Theorem C15_by_x_f64 :
+  forall (st : store NB64) (a b : eid),
+  okev NB64 (NB_laws 53 1024) st a -> okev NB64 (NB_laws 53 1024) st b ->
+  ltX NB64 (px (e_point (getE st a))) (px (e_point (getE st b))) = true ->
+  cmp_events st a b = Gt /\ cmp_events st b a = Lt.
+Proof. exact (@cmp_events_by_x NB64 (NB_laws 53 1024)). Qed.
+Theorem C15_by_y_f64 :
+  forall (st : store NB64) (a b : eid),
+  okev NB64 (NB_laws 53 1024) st a -> okev NB64 (NB_laws 53 1024) st b ->
+  ltX NB64 (px (e_point (getE st a))) (px (e_point (getE st b))) = false ->
+  ltX NB64 (px (e_point (getE st b))) (px (e_point (getE st a))) = false ->
+  ltY NB64 (py (e_point (getE st a))) (py (e_point (getE st b))) = true ->
+  cmp_events st a b = Gt /\ cmp_events st b a = Lt.
+Proof. exact (@cmp_events_by_y NB64 (NB_laws 53 1024)). Qed.
